@@ -97,9 +97,9 @@ package document
 //@ func (*TemplateEngine).extractHeaderFooterContent
 //@ props C17
 //@ requires doc != nil
-//@ modifies nothing
+//@ modifies sb(contentBuilder)
 //@ loop 1
-//@   invariant unchangedHeap()
+//@   invariant unchangedHeap() && buildersUnchangedExcept(contentBuilder)
 
 //@ func (*TemplateEngine).extractTemplateContentFromDocument
 //@ props C17
@@ -107,10 +107,10 @@ package document
 //@ modifies nothing
 //@ ensures err == nil
 //@ loop 1
-//@   invariant 0 <= #i && #i <= len(doc.Body.Elements) && unchangedHeap()
+//@   invariant 0 <= #i && #i <= len(doc.Body.Elements) && unchangedHeap() && buildersUnchangedExcept()
 //@   decreases len(doc.Body.Elements) - #i
 //@ loop 2
-//@   invariant 0 <= #i && #i <= len(elem.Runs) && unchangedHeap()
+//@   invariant 0 <= #i && #i <= len(elem.Runs) && unchangedHeap() && buildersUnchangedExcept()
 //@   decreases len(elem.Runs) - #i
 
 // LoadTemplateFromDocument: as LoadTemplate; the document becomes the template's base document and is only read.
